@@ -87,6 +87,11 @@ def ctl_sig(s):
         "late_reply": late_kinds(s["steps"]),
         "reorg": "Reorg" in evs,
         "restart": sum(1 for st in s["steps"] if st["ev"] == "Start") > 1,
+        # the accounts provider's answer is part of the history: changes, failing lookups, nobody active
+        "accounts_change": "Accounts" in evs,
+        "accounts_fail": any(st["ev"] == "Accounts" and st.get("err") for st in s["steps"]) or bool(reset.get("acct", {}).get("err")),
+        "accounts_none": any(st["ev"] == "Accounts" and not st.get("err") and not st.get("vals") for st in s["steps"])
+                         or (reset.get("acct") is not None and not reset["acct"].get("err") and not reset["acct"].get("vals")),
     }
 
 
@@ -98,7 +103,23 @@ def ctl_nontrivial(s, rows):
     refresh = any(r.get("ev") == "HeadEvent" and r.get("fetches") for r in rows)
     restart = sum(1 for r in rows if r.get("ev") == "Start") > 1
     ran = any(r.get("done") for r in rows)
-    return had_jobs and (refresh or restart or ran)
+    if had_jobs and (refresh or restart or ran):
+        return True
+    # ... or (histories on one instance) a call left early - its accounts lookup failed or named nobody - and a later
+    # call on the same instance obtained duties that became jobs
+    left = False
+    acct = dict(s["steps"][0].get("acct") or {"err": False, "vals": [1]})
+    for r in rows:
+        if r.get("ev") == "Accounts":
+            acct = {"err": r.get("err"), "vals": r.get("vals")}
+        elif r.get("ev") == "Start":
+            left = False
+        elif r.get("ev") in ("HeadEvent", "EpochTick", "Fire", "Release"):
+            if (acct["err"] or not acct["vals"]) and (r.get("ev") != "Fire" or r.get("k") == "prepepoch"):
+                left = True
+            elif left and r.get("fetches") and r.get("jobs"):
+                return True
+    return False
 
 
 def late_kinds(h):
@@ -113,13 +134,25 @@ def ctl_families(tier):
     # delaying, resp. the scheduler's CancelJob delaying), and design-level
     # counterexamples of NoStaleJob (overlapping refreshes) among short start-up / head event /
     # reorg / delayed-reply histories, to be replayed on the real code
-    return [("Scen_Controller.cfg", 300 if q else 2000, 500 if q else 3200, 160),          # small chain, all stimuli
+    return [("Scen_Controller.cfg", 280 if q else 2000, 470 if q else 3200, 160),          # small chain, all stimuli
             ("Scen_Controller_wide.cfg", 100 if q else 800, 160 if q else 1200, 260),      # other chain parameters
             ("Scen_Controller_gated_sim.cfg", 30 if q else 250, 120 if q else 800, 200),   # delayed duty replies
             ("Scen_Controller_steps_sim.cfg", 40 if q else 400, 110 if q else 1000, 220),  # delayed accounts / scheduler calls
             ("Scen_Controller_steps.cfg" if q else "Scen_Controller_steps_big.cfg", 4 if q else 20, 0, 0),
             ("Scen_Controller_steps_cancel.cfg" if q else "Scen_Controller_steps_cancel_big.cfg", 4 if q else 40, 0, 0),
-            ("Scen_Controller_gated.cfg" if q else "Scen_Controller_gated_big.cfg", 1 if q else 2, 0, 0)]
+            ("Scen_Controller_gated.cfg" if q else "Scen_Controller_gated_big.cfg", 1 if q else 2, 0, 0),
+            # histories of calls on ONE instance with the accounts provider's answer as a per-call input (any subset of
+            # the validators, nobody, an error; the accounts provider delaying, so that lookups under way at once are
+            # answered differently): simulation ...
+            ("Scen_Controller_hist_sim.cfg", 50 if q else 700, 170 if q else 2200, 220),
+            ("Scen_Controller_hist_sim_wide.cfg", 0 if q else 300, 0 if q else 700, 260),
+            # ... and enumerated exhaustively by TLC: a call (attester / proposer / sync committee refresh; the epoch
+            # ticker; prepare-for-epoch) that went through to asking the node for duties AFTER a call of the same kind
+            # had left early on the same instance (EmitAfterEarly), and two refreshes of one kind under way at once,
+            # waiting for their accounts and let through in either order with the answer changing between (EmitOverlap)
+            ("Scen_Controller_hist.cfg" if q else "Scen_Controller_hist_big.cfg", 3 if q else 16, 0, 0),
+            ("Scen_Controller_hist_tick.cfg", 2 if q else 12, 0, 0),
+            ("Scen_Controller_hist_overlap.cfg" if q else "Scen_Controller_hist_overlap_big.cfg", 2 if q else 12, 0, 0)]
 
 
 def steps_class(h):
@@ -134,12 +167,45 @@ def steps_class(h):
     return (h[0]["cfg"]["ft"], fired, rel_after_fire, tick_inside, oracle)
 
 
+def hist_class(meta, h):
+    """Shape of a history on one instance: which kinds of call went on after one of their kind had left early, which kinds
+    of refresh overlapped, how the early call left (failed lookup / nobody active), whether the accounts provider delayed
+    and whether its answer changed while a lookup was waiting."""
+    evs = [st["ev"] for st in h]
+    answers = [h[0].get("acct")] + [st for st in h if st["ev"] == "Accounts"]
+    waiting = between = False
+    for st in h:
+        if st["ev"] == "HeadEvent":
+            waiting = any(x["ev"] == "Hold" and x.get("on") for x in h[:h.index(st)])
+        elif st["ev"] == "Accounts" and waiting:
+            between = True
+    return (tuple(sorted(meta.get("aft", []))), tuple(sorted(meta.get("ovl", []))),
+            any(a and a.get("err") for a in answers), "Hold" in evs, between)
+
+
 def ctl_generate(fam):
     cfg, n, runs, depth = fam
     name = "scen-" + cfg.replace(".cfg", "")
+    if not n:
+        return []
     if runs:
         return vf.tlc_scenarios(PID, "Scen_Controller", cfg, num=runs, depth=depth, name=name, timeout=900)[:n]
-    hs = vf.tlc_scenarios(PID, "Scen_Controller", cfg, exhaustive=True, workers=min(vf.NCPU, 8), name=name, timeout=1200)
+    hs = vf.tlc_scenarios(PID, "Scen_Controller", cfg, exhaustive=True, workers=3 if "_hist" in cfg else min(vf.NCPU, 8), name=name,
+                          timeout=1200)
+    if "_hist" in cfg:
+        # the first record (kinds of call concerned) is for this selection only: per class the shortest ones and a
+        # seed-dependent choice among the others
+        by = {}
+        for h in sorted(hs, key=lambda h: (len(h), json.dumps(h, sort_keys=True))):
+            meta, h = h[0], h[1:]
+            by.setdefault(hist_class(meta, h), []).append(h)
+        out = []
+        for k in sorted(by):
+            first, rest = by[k][:(n + 1) // 2], by[k][(n + 1) // 2:]
+            off = (vf.seed() * 7) % max(1, len(rest))
+            out += first + (rest[off:] + rest[:off])[:n - len(first)]
+        vf.log("%s: %d histories in %d classes, %d taken" % (cfg, len(hs), len(by), len(out)))
+        return out
     steps = "_steps" in cfg
     by, out = {}, []
     for h in sorted(hs, key=lambda h: (len(h), json.dumps(h, sort_keys=True))):
@@ -153,6 +219,36 @@ def ctl_generate(fam):
         else:
             out += by[k][:n] if n else by[k]
     return out
+
+
+# Vacuity self-check (spec/Controller.tla, Deviation): a design that keeps state on the instance which the property does
+# not make persistent - the proposer refresh takes a lock and gives it back where scheduleProposals returns, not where the
+# refresh returns early (seeded/C03-proposer-refresh-mutex-leak).  It is right on every history in which the accounts
+# provider always names somebody (the model as it was: that run must pass) and TLC must reject it once the accounts
+# provider's answer is part of the history.
+def ctl_selfcheck():
+    r = vf.tlc(PID, "self-fresh-LeakPropLock", "MC_Controller", "MC_Controller_fresh_LeakPropLock.cfg", workers=2, timeout=600)
+    if not r["ok"]:
+        raise vf.Broken("model self-check failed: MC_Controller_fresh_LeakPropLock.cfg must pass (%s %s)\n%s" % (
+            r["kind"], r["violated"], r["out"][-2000:]))
+    vf.log("model self-check: the leaked proposer-refresh lock passes while the accounts provider always names somebody (%d states)" % r["distinct"])
+    r = vf.tlc(PID, "self-dev-LeakPropLock", "MC_Controller", "MC_Controller_dev_LeakPropLock.cfg", workers=2, timeout=600)
+    if r["kind"] != "invariant" or r["violated"] != "RefreshCompletes":
+        raise vf.Broken("model self-check failed: the leaked proposer-refresh lock is not rejected (%s %s)\n%s" % (
+            r["kind"], r["violated"], r["out"][-2000:]))
+    vf.log("model self-check: the leaked proposer-refresh lock violates RefreshCompletes over histories with a failing / empty accounts lookup (as it must)")
+    return []
+
+
+def ctl_mc_accts(tier):
+    # the accounts provider's answer changes during the history (fails, names nobody, names one validator, names all)
+    if tier == "quick":
+        return [vf.tlc_exhaustive(PID, "MC_Controller", "MC_Controller_accts.cfg", name="mc-ctl-accts", workers=3)]
+    # ... more changes; and with the accounts provider delaying (lookups of refreshes under way at once answered differently)
+    return [vf.tlc_exhaustive(PID, "MC_Controller", "MC_Controller_accts_big.cfg", name="mc-ctl-accts-big",
+                              workers=min(vf.NCPU, 10), timeout=1500, heap="8g"),
+            vf.tlc_exhaustive(PID, "MC_Controller", "MC_Controller_accts_gate.cfg", name="mc-ctl-accts-gate",
+                              workers=min(vf.NCPU, 10), timeout=1500, heap="8g")]
 
 
 def ctl_mc(tier):
@@ -234,6 +330,7 @@ def run(tier):
         "head events are delivered for the current slot and carry the roots in force; reorgs reach at most the previous epoch's boundary",
         "Env_SyncRootShallow: the root that fixes the next sync committee (boundary of a period's first epoch) is reorganised only during that epoch, and a head event shows the reorganisation before that epoch is over",
         "delaying interfaces (duty replies, accounts lookups, scheduler calls) delay a call, never lose or reorder its effect; the epoch ticker and prepare-for-epoch are explored with a prompt accounts provider",
+        "the accounts provider answers every 'all accounts of the epoch' lookup with the answer in force when the lookup is made (a delayed one: when it is let through) - any subset of the validators, nobody, or an error; the by-index lookups always succeed; New() with a failing accounts provider fails and is not explored",
         "beacon node, accounts, clock, scheduler and duty services are scripted fakes at the controller's interfaces; the chain-time service is bound separately",
     ]
     # TLC work that does not depend on the Go side runs side by side: exhaustive model checking and
@@ -242,10 +339,12 @@ def run(tier):
     with ThreadPoolExecutor(max_workers=10 if tier == "quick" else 3) as ex:
         f_ctl_mc = ex.submit(ctl_mc, tier)
         f_ctl_mc2 = ex.submit(ctl_mc_refresh, tier)
+        f_ctl_mc3 = ex.submit(ctl_mc_accts, tier)
+        f_self = ex.submit(ctl_selfcheck)
         f_gen = [ex.submit(ctl_generate, f) for f in reversed(fams)]
         f_ct_mc = ex.submit(ct_mc, tier)
         f_ct_sc = ex.submit(ct_scenarios, tier)
-        for r in f_ct_mc.result() + f_ctl_mc.result() + f_ctl_mc2.result():
+        for r in f_ct_mc.result() + f_ctl_mc.result() + f_ctl_mc2.result() + f_ctl_mc3.result() + f_self.result():
             v.add_mc(r)
         ct_sc = f_ct_sc.result()
         ctl_hs = [h for f in reversed(f_gen) for h in f.result()]
@@ -262,7 +361,9 @@ def run(tier):
                           "chaintime/standard, non-trivial = epoch-side conversions and a clock reading sampled; controller: behaviours "
                           "of Controller.tla from TLC simulation (seeded) over seed-derived duty oracles and configuration families, "
                           "replayed on the real controller, non-trivial = duties became jobs and then a reorg refresh, a restart or a "
-                          "job execution followed; distinct by step list; system level: one directed schedule (cancel of the current slot's job "
+                          "job execution followed, or a call left early (accounts lookup failed / named nobody) and a later call on the "
+                          "same instance obtained duties that became jobs; one controller instance per history, the accounts provider's "
+                          "answer a per-call input; distinct by step list; system level: one directed schedule (cancel of the current slot's job "
                           "right after its timer fired) on the real controller + real scheduler + real attester, judged by Trace_Vouch.tla")
     return v.finish()
 
